@@ -1,6 +1,6 @@
 #!/bin/bash
 # usage: confirm_seed.sh <ID> [property]   -- confirms a seeded change produced in /tmp/seed/<ID> and stores it under /verif/seeded/<ID>
-ID=$1; PROP=${2:-${ID%%-*}}
+ID=$1; PROP=${2:-${ID:0:3}}
 W=/tmp/seed/$ID; OUT=/tmp/seed/$ID.out
 export GOFLAGS=-mod=mod GOPROXY=off GOSUMDB=off GOTOOLCHAIN=local
 set -u
